@@ -11,7 +11,7 @@ import vyper
 from vyper.compiler.input_bundle import CompilerInput, JSONInput, _NotFound
 from vyper.compiler.phases import CompilerData
 from vyper.compiler.settings import Settings
-from vyper.exceptions import CompilerPanic
+from vyper.exceptions import CompilerPanic, StructureException
 from vyper.utils import safe_relpath
 
 # data structures and routines for constructing "output bundles",
@@ -69,7 +69,15 @@ class OutputBundle:
             # note: there should be a 1:1 correspondence between
             # resolved_path and source_id, but for clarity use resolved_path
             # since it corresponds more directly to search path semantics.
-            sources[_anonymize(path)] = c
+            key = _anonymize(path)
+            if key in sources and sources[key].resolved_path != c.resolved_path:
+                # `_anonymize` is not injective (`../x.vy` and `0/x.vy`):
+                # refuse to write a bundle which would silently lose a source
+                raise StructureException(
+                    f"cannot create an output bundle: `{path}` and "
+                    f"`{safe_relpath(sources[key].resolved_path)}` both map to `{key}`"
+                )
+            sources[key] = c
 
         return sources
 
